@@ -613,6 +613,14 @@ class Interp:
             return True
         # user enum variant or struct
         tinfo = self.lib.resolve_ctor(segs)
+        if tinfo is None and isinstance(v, Opaque) and v.tag == name and pat['k'] == 'PStruct':
+            # struct pattern on a library object (e.g. notify::Error { kind: .., .. })
+            for f in pat['fields']:
+                if f['member'] not in v.data:
+                    raise Unsupported('library struct %s has no field %s in the model' % (name, f['member']), pat)
+                if not self.match_pat(f['pat'], v.data[f['member']], None):
+                    return False
+            return True
         if tinfo is None:
             raise Unsupported('unknown constructor pattern %s' % '::'.join(segs), pat)
         kind, tyname, variant = tinfo
